@@ -47,12 +47,17 @@ package hessian
 //@   loop 3 invariant [C16:extract-entries] rangeindex + 1 <= R.mapLen(v) && @nrec == old(@nrec) + 2 * (rangeindex + 1) && @dyntrue == old(@dyntrue) + 1 && @dyncalls == old(@dyncalls) + 1
 //@   loop 4 invariant [C16:extract-fields] 0 <= i && i <= R.numField(v) && @nrec == old(@nrec) + i && @dyntrue == old(@dyntrue) + 1 && @dyncalls == old(@dyncalls) + 1
 //@   proves  [C16:extract-one-extractor-call] @dyncalls <= old(@dyncalls) + 1
-//@   proves  [C16:extractor-reached-unless-nil-interface] @dyncalls == old(@dyncalls) ==> R.kind(now(v)) == K.Interface || R.tElem(R.typeOf(now(v))) == R.typeOf(now(v))
+//@   proves  [C16:extractor-reached-unless-nil-interface] @dyncalls == old(@dyncalls) ==> R.kind(now(v)) == K.Interface || R.tElem(R.typeOf(now(v))) == R.typeOf(now(v)) || R.typeOf(now(v)) == _dateType
 //@   proves  [C16:closure-slice-nonempty] @dyntrue == old(@dyntrue) + 1 && (R.kind(now(v)) == K.Array || R.kind(now(v)) == K.Slice) && R.len(now(v)) != 0 ==> @nrec == old(@nrec) + R.len(now(v))
 //@   proves  [C16:closure-slice-empty]    @dyntrue == old(@dyntrue) + 1 && (R.kind(now(v)) == K.Array || R.kind(now(v)) == K.Slice) && R.len(now(v)) == 0 ==> @nrec == old(@nrec) + 1
 //@   proves  [C16:closure-map-empty]      @dyntrue == old(@dyntrue) + 1 && R.kind(now(v)) == K.Map && R.len(now(v)) == 0 ==> @nrec == old(@nrec) + 2
 //@   proves  [C16:closure-map-nonempty]   @dyntrue == old(@dyntrue) + 1 && R.kind(now(v)) == K.Map && R.len(now(v)) != 0 ==> @nrec == old(@nrec) + 2 * R.mapLen(now(v))
 //@   proves  [C16:closure-struct]         @dyntrue == old(@dyntrue) + 1 && R.kind(now(v)) == K.Struct ==> @nrec == old(@nrec) + R.numField(now(v))
+
+//@ func codecNamableOf
+//@   pure
+//@   loop 1 invariant [C16:namable-fields] 0 <= i
+//@   ensures [C16:namable-total] true
 
 //@ func ExtractTypeNameMap$1
 //@   requires typMap != nil && nameMap != nil
